@@ -130,7 +130,7 @@ def gen_solution(rng, db, number=1, hard=False, focus=None):
         names = [e]
         vs = val.get(e, [])
         if vs and rng.random() < 0.35:
-            k = rng.randint(1, min(2, len(vs)))
+            k = min(2, len(vs)) if rng.random() < 0.6 else 1
             names = rng.sample(vs, k)
             meta["features"].append("valence")
         for nm in names:
@@ -170,6 +170,25 @@ def gen_solution(rng, db, number=1, hard=False, focus=None):
         if rng.random() < 0.7:
             lines.append(" redox O(0)/O(-2)")
             meta["features"].append("redox-couple")
+    # a redox couple of another element as the electron activity of one element's total (both valence states must be given)
+    given = set(meta["elements"])
+    for base, vs in val.items():
+        have_v = [v for v in vs if v in given]
+        if len(have_v) >= 2 and rng.random() < 0.7:
+            others = [e for e in meta["elements"] if e in val and e != base and "(" not in e]
+            couple = f"{have_v[0]}/{have_v[1]}"
+            if others:
+                tgt = rng.choice(others)
+                for k, ln in enumerate(lines):
+                    w = ln.split()
+                    if w and w[0] == tgt and len(w) >= 2 and "charge" not in w and not any(t in db.phases for t in w[2:]):
+                        lines[k] = ln + " " + couple
+                        meta["features"].append("element-redox-couple")
+                        break
+            elif rng.random() < 0.5:
+                lines.append(f" redox {couple}")
+                meta["features"].append("redox-couple-other")
+            break
     meta["temp"], meta["pH"], meta["pe"], meta["units"] = temp, ph, pe, units
     return "\n".join(lines) + "\n", meta
 
